@@ -522,6 +522,18 @@ def c12(tr, sem=None):
                 pass_forced = any(x['id'] == n and x['start_node'] is not None for x in tr['graph']['nodes'])
                 if not pass_forced:
                     v.append(f'get_default of node {n} got {kw}, the body got {first[(n, max(invs))]}')
+    # the failure of an attempt is reported once (before the delay, or as the node's final failure): reported a second time,
+    # the retry that was due has been abandoned after the delay
+    reported = {}
+    for _, o in _obs(tr, ('emit',), include_after=True):
+        if o[1] == 'ncomplete' and isinstance(o[4], list) and len(o[4]) == 4 and o[4][1] == o[3] and o[4][3] >= 1 \
+                and o[4][0] in ('E0', 'E1', 'E2'):
+            key = (o[2], o[3], tuple(o[4]))
+            reported[key] = reported.get(key, 0) + 1
+    for (_, n, ident), k in sorted(reported.items()):
+        if k > 1:
+            v.append(f'the failure {ident[0]} of attempt {ident[3]} of node {n} (invocation {ident[2]}) was reported {k} times '
+                     f'by on_node_complete: the node gave up instead of making the next attempt')
     # where an execution was given up: the exception left the node's task, was reported as the outcome, or get_default ran
     gave_up = set()
     for e in _events(tr) + tr.get('after', []):
